@@ -52,8 +52,10 @@ def gen_tdm(rng, templates=False):
         lines.append("complex z = 1+2j\n")
         info["scalars"]["z"] = 1 + 2j
     if rng.random() < 0.3:
-        lines.append('str s = "abc"\n')
-        info["scalars"]["s"] = "abc"
+        # (a string variable may hold characters that Python's splitlines() takes for line ends; the grammar does not)
+        sv = rng.choice(["abc", "abc", "a\x0bb", "x\u2028y", "a\x85b", "two  blanks", "a\x0cb", "tab\there", "q\x1cr"])
+        lines.append('str s = "%s"\n' % sv)
+        info["scalars"]["s"] = sv
     if rng.random() < 0.3:
         lines.append("bool flag = True\n")
         info["scalars"]["flag"] = True
@@ -63,7 +65,7 @@ def gen_tdm(rng, templates=False):
     plike = None
     if rng.random() < 0.25:
         # an ordinary array whose name only starts like a p-array: by value, never by name
-        plike = rng.choice(["p0_phase", "p1x", "p12a"])
+        plike = rng.choice(["p0_phase", "p1x", "p12a", "p0_1", "p1_0", "p0_0_0", "p_1", "p1_"])
         lines.append("float array %s =\n    0.25, 0.75\n" % plike)
         info["arrays"][plike] = [0.25, 0.75]
     # (templates) a p-array declared wholesale by one shaped parameter: still passed by name
@@ -71,10 +73,18 @@ def gen_tdm(rng, templates=False):
     if templates and rng.random() < 0.35:
         pn = "p%d" % rng.randrange(20, 30)
         w = rng.randrange(1, 4)
-        lines.append("float array %s[1, %d] =\n    {rs}\n" % (pn, w))
+        # the parameter may be spelled like a p-array declared in the same script (it is a parameter all the same)
+        sympar = rng.choice(list(info["parrays"])) if (info["parrays"] and rng.random() < 0.4) else "rs"
+        info["sympar"] = sympar
+        lines.append("float array %s[1, %d] =\n    {%s}\n" % (pn, w, sympar))
         info["symbolic_parrays"][pn] = w
         pnames = pnames + [pn]
     rng.shuffle(lines)
+    if info.get("sympar", "rs") != "rs":
+        # the p-array whose name the parameter borrows is declared BEFORE the array that uses the parameter
+        decl = [l for l in lines if l.startswith(("float array %s =" % info["sympar"], "int array %s =" % info["sympar"], "complex array %s =" % info["sympar"]))]
+        rest = [l for l in lines if l not in decl]
+        lines = decl + rest
     ops = []
     params = []
     declared = [k for k in ("x", "n", "z", "s", "flag", "B") if k in info["scalars"] or k in info["arrays"]]
@@ -130,9 +140,9 @@ def gen_tdm(rng, templates=False):
     text = "name t\nversion 1.0\n" + rng.choice(["", "target TD2 (shots=10)\n"]) + "type tdm%s\n\n" % opts + "".join(lines) + "\n" + "\n".join(ops) + "\n"
     for pn, w in info["symbolic_parrays"].items():
         if any(u[1] == pn for u in info["uses"]):
-            params += ["rs_0_%d" % j for j in range(w)]
+            params += ["%s_0_%d" % (info.get("sympar", "rs"), j) for j in range(w)]
         else:
-            params += ["rs_0_%d" % j for j in range(w)]
+            params += ["%s_0_%d" % (info.get("sympar", "rs"), j) for j in range(w)]
     info["params"] = sorted(set(params))
     info["pnames"] = pnames
     return text, info
